@@ -67,13 +67,17 @@ def seeded():
            "|---|---|---|---|"]
     n = 0
     for d in sorted((ROOT / "seeded").iterdir()):
+        if not d.is_dir():
+            continue
         m = json.load(open(d / "meta.json"))
         n += 1
         out.append("| %s | %s | %s | %s |" % (
             d.name, m["property"],
             m["needs"].replace("|", "/").replace("\n", " ")[:260],
             m["detected_by"].replace("|", "/")[:320]))
-    out.append("\n%d seeded changes kept; all are detected by the quick tier."
+    out.append("\n%d seeded changes kept; all are detected by the quick tier "
+               "(last full regression: `seeded/REGRESSION.txt`, "
+               "`tools/regress_parallel.sh`)."
                % n)
     return "\n".join(out)
 
